@@ -5,7 +5,7 @@ from this file on every run."""
 
 class H:
     def __init__(self, name, body, *, unwind, tier="quick", timeout=120, stubs=(), gen="", funcs=(),
-                 space_bits=0, bound="", covers=1, mem_gb=6, note="", slice_of=None, expect_stub=None):
+                 space_bits=0, bound="", covers=1, mem_gb=3, note="", slice_of=None, expect_stub=None):
         self.name = name            # harness name (unique)
         self.body = body            # path below vh::props, e.g. "c08::p32_to_p16"
         self.gen = gen              # const generic arguments, e.g. "8" -> body::<8, S>
@@ -97,3 +97,105 @@ for es, P in ((1, "pxe1"), (2, "pxe2")):
 for t, T, n, uw in TYPES:
     reg("C19", H("c19_%s_sample" % t, "c19::%s::sample" % t, unwind=uw + 2, covers=2, funcs=["Distribution<%s> for Standard" % T, "%s::sub" % T], space_bits=96,
                  bound="every RNG stream of <= 3 arbitrary words followed by zeros"))
+
+# ------------------------------------------------------------------ C01
+for t, T, n, uw in TYPES[:2]:
+    tmo = {"p8": 120, "p16": 600}[t]
+    reg("C01",
+        H("c01_%s_add" % t, "c01::%s::add" % t, unwind=uw, timeout=tmo, funcs=["%s::add" % T, "Add for %s" % T], space_bits=2 * n, bound="every operand pair"),
+        H("c01_%s_sub" % t, "c01::%s::sub" % t, unwind=uw, timeout=tmo, funcs=["%s::sub" % T, "Sub for %s" % T], space_bits=2 * n, bound="every operand pair"),
+        H("c01_%s_mul" % t, "c01::%s::mul" % t, unwind=uw, timeout=tmo, funcs=["%s::mul" % T, "Mul for %s" % T], space_bits=2 * n, bound="every operand pair"),
+        H("c01_%s_div" % t, "c01::%s::div" % t, unwind=uw, timeout=tmo, stubs=[DIV32], covers=2, funcs=["%s::div" % T, "Div for %s" % T], space_bits=2 * n,
+          bound="every operand pair, modulo the contract of the crate-private integer division kernel softposit::div (stubbed: q*d+r=n, 0<=r<d; quotient shared with the reference)"),
+        H("c01_%s_div_bounded" % t, "c01::%s::div_bounded" % t, unwind=uw, timeout=900, tier="thorough", funcs=["%s::div" % T, "softposit::div"], space_bits=n + 7,
+          bound="real kernel, no stub: every dividend, divisors with <= 6 fraction bits"),
+        H("c01_%s_spell" % t, "c01::%s::spell" % t, unwind=uw, timeout=tmo, funcs=["%s: +,-,* operator traits, const methods, op-assign" % T], space_bits=2 * n, bound="every operand pair"),
+        )
+reg("C01",
+    H("c01_p32_mul", "c01::p32::mul", unwind=33, timeout=1500, funcs=["P32E2::mul", "Mul for P32E2"], space_bits=64, bound="every operand pair"),
+    H("c01_p32_div", "c01::p32::div", unwind=33, timeout=400, stubs=[LLDIV], covers=2, funcs=["P32E2::div", "Div for P32E2"], space_bits=64,
+      bound="every operand pair, modulo the contract of softposit::lldiv (stubbed: q*d+r=n, 0<=r<d; quotient shared with the reference)"),
+    H("c01_p32_div_bounded", "c01::p32::div_bounded", unwind=33, timeout=1800, tier="thorough", funcs=["P32E2::div", "softposit::lldiv"], space_bits=39,
+      bound="real kernel, no stub: every dividend, divisors with <= 6 fraction bits"),
+    H("c01_p32_spell", "c01::p32::spell", unwind=33, timeout=900, funcs=["P32E2: +,-,* operator traits, const methods, op-assign"], space_bits=64, bound="every operand pair"),
+    H("c01_p32_addsub_special", "c01::p32::addsub_special", unwind=33, funcs=["P32E2::add", "P32E2::sub"], space_bits=34, bound="every pair with a zero or NaR operand"),
+    H("c01_p32_slices_cover", "c01::p32::slices_cover", unwind=33, funcs=[], space_bits=64, bound="the 9 slice predicates below cover every pair of real operands"),
+    )
+# (same sign?, dlo, dhi, measured seconds)
+P32_ADD_SLICES = [(True, 0, 3, 150), (True, 4, 15, 300), (True, 16, 40, 320), (True, 41, 1000, 50),
+                  (False, 0, 0, 180), (False, 1, 1, 215), (False, 2, 7, 300), (False, 8, 40, 160), (False, 41, 1000, 80)]
+for op in ("add", "sub"):
+    for same, lo, hi, sec in P32_ADD_SLICES:
+        nm = "c01_p32_%s_%s_d%d_%d" % (op, "same" if same else "diff", lo, hi)
+        reg("C01", H(nm, "c01::p32::%s_slice" % op, gen="%s, %d, %d" % ("true" if same else "false", lo, hi), unwind=33, timeout=max(4 * sec, 300),
+                     tier="quick" if sec <= 220 else "thorough", funcs=["P32E2::%s" % op], space_bits=64, slice_of="P32E2 %s over all real pairs" % op,
+                     bound="real operands, effective signs %s, |scale(a)-scale(b)| in [%d,%d]" % ("equal" if same else "opposite", lo, hi)))
+
+# ------------------------------------------------------------------ C04 (one inductive step from an arbitrary state)
+reg("C04",
+    H("c04_q8_step", "c04::q8::step", unwind=34, covers=2, funcs=["Q8E0 += (P8E0,P8E0)", "Q8E0 -= (P8E0,P8E0)", "Q8E0 += P8E0", "Q8E0 -= P8E0"], space_bits=50, bound="every 32-bit quire state (NaR state included), every operand pair, four step kinds; result pattern != NaR (the property's range precondition)"),
+    H("c04_q8_predicates", "c04::q8::predicates", unwind=9, funcs=["Q8E0::is_zero", "Q8E0::is_nar"], space_bits=32, bound="every state"),
+    H("c04_q8_to_posit", "c04::q8::to_posit", unwind=34, funcs=["Q8E0::to_posit"], space_bits=32, bound="every state"),
+    H("c04_q8_spellings", "c04::q8::spellings", unwind=34, funcs=["Q8E0 +=/-= tuple, nested-tuple and array operands"], space_bits=65, bound="every state and operands"),
+    H("c04_q16_step", "c04::q16::step", unwind=66, covers=2, timeout=600, funcs=["Q16E1 += (P16E1,P16E1)", "Q16E1 -= (P16E1,P16E1)", "Q16E1 += P16E1", "Q16E1 -= P16E1"], space_bits=162, bound="every 128-bit quire state, every operand pair, four step kinds; result pattern != NaR"),
+    H("c04_q16_predicates", "c04::q16::predicates", unwind=9, funcs=["Q16E1::is_zero", "Q16E1::is_nar"], space_bits=128, bound="every state"),
+    H("c04_q16_to_posit", "c04::q16::to_posit", unwind=130, timeout=300, funcs=["Q16E1::to_posit"], space_bits=128, bound="every state"),
+    H("c04_q16_spellings", "c04::q16::spellings", unwind=66, timeout=900, funcs=["Q16E1 +=/-= tuple, nested-tuple and array operands"], space_bits=193, bound="every state and operands"),
+    H("c04_q32_predicates", "c04::q32::predicates", unwind=9, covers=2, funcs=["Q32E2::is_zero", "Q32E2::is_nar"], space_bits=512, bound="every state"),
+    H("c04_q32_to_posit", "c04::q32::to_posit", unwind=66, timeout=900, mem_gb=10, funcs=["Q32E2::to_posit"], space_bits=512, bound="every 512-bit state"),
+    H("c04_q32_spellings", "c04::q32::spellings", unwind=34, timeout=1800, mem_gb=12, tier="thorough", funcs=["Q32E2 +=/-= tuple, nested-tuple and array operands"], space_bits=641, bound="every state and operands"),
+    )
+for op, nm in ((0, "add_prod"), (1, "sub_prod"), (2, "add_one"), (3, "sub_one")):
+    reg("C04", H("c04_q32_step_" + nm, "c04::q32::step", gen=str(op), unwind=34, covers=2, timeout=900, mem_gb=10, tier="quick" if op in (1, 2) else "thorough",
+                 funcs=["Q32E2 %s" % ["+= (P32E2,P32E2)", "-= (P32E2,P32E2)", "+= P32E2", "-= P32E2"][op]], space_bits=576,
+                 bound="every 512-bit quire state, every operand (pair); result pattern != NaR"))
+
+# ------------------------------------------------------------------ C12
+reg("C12",
+    H("c12_q8_roundtrip", "c12::q8::roundtrip", unwind=34, funcs=["From<P8E0> for Q8E0", "Q8E0::from_posit", "Q8E0::to_posit", "From<Q8E0> for P8E0"], space_bits=8, bound="every P8E0"),
+    H("c12_q8_state_ops", "c12::q8::state_ops", unwind=34, funcs=["Q8E0::neg", "Q8E0::clear", "Q8E0::from_bits", "Q8E0::to_bits"], space_bits=32, bound="every 32-bit state"),
+    H("c12_q8_split", "c12::q8::split", unwind=34, timeout=300, funcs=["Q8E0::into_two_posits", "Q8E0::into_three_posits"], space_bits=32, bound="every non-NaR state whose residuals are not the NaR pattern"),
+    H("c12_q16_roundtrip", "c12::q16::roundtrip", unwind=130, funcs=["From<P16E1> for Q16E1", "Q16E1::from_posit", "Q16E1::to_posit", "From<Q16E1> for P16E1"], space_bits=16, bound="every P16E1"),
+    H("c12_q16_state_ops", "c12::q16::state_ops", unwind=130, funcs=["Q16E1::neg", "Q16E1::clear", "Q16E1::from_bits", "Q16E1::to_bits"], space_bits=128, bound="every 128-bit state"),
+    H("c12_q16_split", "c12::q16::split", unwind=130, timeout=900, funcs=["Q16E1::into_two_posits", "Q16E1::into_three_posits"], space_bits=128, bound="every non-NaR state whose residuals are not the NaR pattern"),
+    H("c12_q32_roundtrip", "c12::q32::roundtrip", unwind=66, timeout=600, mem_gb=10, funcs=["From<P32E2> for Q32E2", "Q32E2::from_posit", "Q32E2::to_posit", "From<Q32E2> for P32E2"], space_bits=32, bound="every P32E2"),
+    H("c12_q32_state_ops", "c12::q32::state_ops", unwind=66, timeout=300, funcs=["Q32E2::neg", "Q32E2::clear", "Q32E2::from_bits", "Q32E2::to_bits"], space_bits=512, bound="every 512-bit state"),
+    H("c12_q32_split2", "c12::q32::split2", unwind=66, timeout=2400, mem_gb=14, tier="thorough", funcs=["Q32E2::into_two_posits"], space_bits=512, bound="every non-NaR state whose residual is not the NaR pattern"),
+    H("c12_q32_split3", "c12::q32::split3", unwind=66, timeout=3600, mem_gb=16, tier="thorough", funcs=["Q32E2::into_three_posits"], space_bits=512, bound="every non-NaR state whose residuals are not the NaR pattern"),
+    )
+
+
+# ------------------------------------------------------------------ C05
+for t, T, n, uw in TYPES[:2]:
+    tmo = {"p8": 300, "p16": 1500}[t]
+    for f in ("mul_add", "mul_sub", "sub_product"):
+        reg("C05", H("c05_%s_%s" % (t, f), "c05::%s::%s" % (t, f), unwind=uw + 2, timeout=tmo, funcs=["%s::%s" % (T, f)], space_bits=3 * n, bound="every operand triple"))
+reg("C05",
+    H("c05_p32_special", "c05::p32::special", unwind=34, timeout=600, funcs=["P32E2::mul_add", "P32E2::mul_sub", "P32E2::sub_product"], space_bits=66, bound="every triple with a zero or NaR operand"),
+    H("c05_p32_op_mapping", "c05::p32::op_mapping", unwind=34, timeout=2400, tier="thorough", funcs=["P32E2::mul_sub", "P32E2::sub_product", "P32E2::mul_add"], space_bits=96,
+      bound="every triple: mul_sub(a,b,c) == mul_add(a,b,-c), sub_product(c,a,b) == mul_add(-a,b,c)"),
+    )
+P32_FMA_D = [(-1000, -70), (-69, -40), (-39, -20), (-19, -8), (-7, -1), (0, 3), (4, 12), (13, 30), (31, 69), (70, 1000)]
+P32_FMA_QUICK = {(True, -1000, -70), (True, 70, 1000), (False, 70, 1000), (False, -1000, -70)}
+for same in (True, False):
+    for lo, hi in P32_FMA_D:
+        nm = "c05_p32_mul_add_%s_d%s_%s" % ("same" if same else "diff", str(lo).replace("-", "m"), str(hi).replace("-", "m"))
+        reg("C05", H(nm, "c05::p32::slice", gen="0, %s, %d, %d" % ("true" if same else "false", lo, hi), unwind=34, timeout=1800,
+                     tier="quick" if (same, lo, hi) in P32_FMA_QUICK else "thorough", funcs=["P32E2::mul_add"], space_bits=96, slice_of="P32E2 mul_add over all real triples",
+                     bound="real operands, sign(a*b) %s sign(c), scale(a)+scale(b)-scale(c) in [%d,%d]" % ("==" if same else "!=", lo, hi)))
+
+# ------------------------------------------------------------------ C06
+reg("C06",
+    H("c06_p8_sqrt", "c06::p8::sqrt", unwind=10, funcs=["P8E0::sqrt"], space_bits=8, bound="every P8E0 bit pattern"),
+    H("c06_p32_sqrt_special", "c06::p32::sqrt_special", unwind=34, funcs=["P32E2::sqrt"], space_bits=31, bound="every zero, NaR and negative input"),
+    H("c06_p32_sqrt_f4", "c06::p32::sqrt_fbits", gen="4, 16", unwind=34, timeout=900, funcs=["P32E2::sqrt"], space_bits=11, bound="positive inputs whose fraction has <= 4 significant bits (every regime and exponent)"),
+    H("c06_p32_sqrt_low_4a5a5", "c06::p32::sqrt_lowbits", gen="0x4A5A5", unwind=34, timeout=900, funcs=["P32E2::sqrt"], space_bits=12, bound="top 20 bits 0x4A5A5, low 12 bits free"),
+    )
+for top in range(8):
+    reg("C06", H("c06_p16_sqrt_t%d" % top, "c06::p16::sqrt_top", gen=str(top), unwind=18, timeout=900, tier="quick", funcs=["P16E1::sqrt"], space_bits=13, slice_of="P16E1 sqrt over all inputs",
+                 bound="every P16E1 input whose top 3 bits are %d" % top))
+for reg_ in range(16):
+    reg("C06", H("c06_p32_sqrt_f8_r%d" % reg_, "c06::p32::sqrt_fbits", gen="8, %d" % reg_, unwind=34, timeout=1800, tier="thorough", funcs=["P32E2::sqrt"], space_bits=12,
+                 slice_of="P32E2 sqrt, fraction <= 8 significant bits", bound="positive inputs with bits 30..27 == %d whose fraction has <= 8 significant bits" % reg_))
+for i, top in enumerate([0x4A5A5, 0x40000, 0x41234, 0x45FFF, 0x48000, 0x4C321, 0x4FFFF, 0x50001, 0x5A5A5, 0x60000, 0x6789A, 0x70F0F, 0x3FFFF, 0x30001, 0x2ABCD, 0x10000][1:]):
+    reg("C06", H("c06_p32_sqrt_low_%05x" % top, "c06::p32::sqrt_lowbits", gen="0x%X" % top, unwind=34, timeout=1200, tier="thorough", funcs=["P32E2::sqrt"], space_bits=12, bound="top 20 bits 0x%05X, low 12 bits free" % top))
